@@ -570,13 +570,12 @@ def r_attribution(ctx):
                     binds.append((n, c))
     ctx.require(binds, 'delivery callback binding not found')
     # lookup table: attribute subscripted with the message
-    table = None
-    for n in ast.walk(f.node):
-        if isinstance(n, ast.Subscript) and isinstance(n.slice, ast.Name) and n.slice.id == msg:
-            a = P.self_attr(n.value, f.self_name)
-            if a:
-                table = a
+    table = (_keyed_tables(P, f, msg) or [None])[-1]
     ctx.require(table, 'member lookup table not found')
+
+    def is_table_get(e):
+        return isinstance(e, ast.Call) and isinstance(e.func, ast.Attribute) and e.func.attr == 'get' and P.self_attr(e.func.value, f.self_name) == table \
+            and e.args and unparse(e.args[0]) == msg and (len(e.args) == 1 or (isinstance(e.args[1], ast.Constant) and e.args[1].value is None))
     for n, c in binds:
         inst = 'delivery bound only for a known member or a read-only peer'
         bound = c.args[0].args[1] if len(c.args[0].args) > 1 else None
@@ -596,6 +595,9 @@ def r_attribution(ctx):
                                 and isinstance(e.test.ops[0], ast.In) and unparse(e.test.left) == msg and P.self_attr(e.test.comparators[0], f.self_name) == table \
                                 and oracle.entails(fs, ('none', a, False)):
                             implied = True
+                        # `node = table.get(message)` together with `node is not None`: the same
+                        if is_table_get(e) and oracle.entails(fs, ('none', a, False)):
+                            implied = True
             if not implied:
                 ok, cex = False, fs
                 break
@@ -609,12 +611,26 @@ def r_attribution(ctx):
         inst = 'the bound node is the looked-up / freshly created node object'
         ctx.tick()
         if isinstance(bound, ast.Name) and bound.id != msg:
-            defs = [d for d in ast.walk(f.node) if isinstance(d, ast.Assign) and isinstance(d.targets[0], ast.Name) and d.targets[0].id == bound.id]
-            okd = all((isinstance(d.value, ast.IfExp) and any(P.self_attr(x, f.self_name) == table for x in ast.walk(d.value))) or
-                      (isinstance(d.value, ast.Call) and unparse(d.value.func) in ('Node', 'TCPNode')) or
-                      (isinstance(d.value, ast.Subscript) and P.self_attr(d.value.value, f.self_name) == table) or
-                      (isinstance(d.value, ast.Call) and isinstance(d.value.func, ast.Attribute) and d.value.func.attr == 'get' and P.self_attr(d.value.func.value, f.self_name) == table)
-                      for d in defs) and bool(defs)
+            def src_ok(name, seen=()):
+                if name in seen:
+                    return True
+                defs = [d for d in ast.walk(f.node) if isinstance(d, ast.Assign) and isinstance(d.targets[0], ast.Name) and d.targets[0].id == name]
+                if not defs:
+                    return False
+                for d in defs:
+                    v = d.value
+                    if isinstance(v, ast.Constant) and v.value is None:
+                        continue
+                    if isinstance(v, ast.Name) and v.id != msg and src_ok(v.id, seen + (name,)):
+                        continue
+                    if (isinstance(v, ast.IfExp) and any(P.self_attr(x, f.self_name) == table for x in ast.walk(v))) or \
+                            (isinstance(v, ast.Call) and unparse(v.func) in ('Node', 'TCPNode')) or \
+                            (isinstance(v, ast.Subscript) and P.self_attr(v.value, f.self_name) == table) or \
+                            (isinstance(v, ast.Call) and isinstance(v.func, ast.Attribute) and v.func.attr == 'get' and P.self_attr(v.func.value, f.self_name) == table):
+                        continue
+                    return False
+                return True
+            okd = src_ok(bound.id)
             if okd:
                 ctx.ok(inst, f.loc(c), '`%s` is defined only from the member table or Node(<counter>)' % bound.id)
             else:
@@ -647,6 +663,21 @@ def r_attribution(ctx):
     ctx.expect_min(4)
 
 
+def _keyed_tables(P, func, key):
+    """attributes of self looked up with the local `key`: self.A[key], self.A.get(key, ..), key in self.A"""
+    out = []
+    sn = func.self_name
+    for n in ast.walk(func.node):
+        a = None
+        if isinstance(n, ast.Subscript) and isinstance(n.slice, ast.Name) and n.slice.id == key:
+            a = P.self_attr(n.value, sn)
+        elif isinstance(n, ast.Call) and isinstance(n.func, ast.Attribute) and n.func.attr == 'get' and n.args and isinstance(n.args[0], ast.Name) and n.args[0].id == key:
+            a = P.self_attr(n.func.value, sn)
+        if a and a not in out:
+            out.append(a)
+    return out
+
+
 @rule('R-drop-teardown', 'dropNode removes the connection from the registry and disconnects it, and removes the node from the '
                          'member set and the address lookup table, so a removed member can neither deliver nor re-handshake')
 def r_drop_teardown(ctx):
@@ -655,15 +686,9 @@ def r_drop_teardown(ctx):
     f = T.methods['dropNode']
     inc = T.methods['_onIncomingMessageReceived']
     msg = inc.params[2]
-    table = None
-    for n in ast.walk(inc.node):
-        if isinstance(n, ast.Subscript) and isinstance(n.slice, ast.Name) and n.slice.id == msg:
-            table = P.self_attr(n.value, inc.self_name) or table
+    table = (_keyed_tables(P, inc, msg) or [None])[-1]
     send = T.methods['send']
-    registry = None
-    for n in ast.walk(send.node):
-        if isinstance(n, ast.Subscript) and P.self_attr(n.value, send.self_name):
-            registry = P.self_attr(n.value, send.self_name)
+    registry = (_keyed_tables(P, send, send.params[1]) or [None])[-1]
     ctx.require(table and registry, 'lookup table / connection registry not found')
     ex = U.explorer(ctx, f)
     cfg = ex.cfg
@@ -780,12 +805,34 @@ def r_send_connected(ctx):
     ex = U.explorer(ctx, f)
     res = U.full_run(ctx, f)
     cfg = ex.cfg
-    sends = [n for n in cfg.nodes if n.kind == 'stmt' and any(isinstance(c, ast.Call) and isinstance(c.func, ast.Attribute) and c.func.attr == 'send' and isinstance(c.func.value, ast.Subscript) for c in ast.walk(n.ast))]
+    registry = (_keyed_tables(P, f, f.params[1]) or [None])[-1]
+    ctx.require(registry, 'TCPTransport.send does not look the node up in a connection registry')
+
+    def fwd_calls(n):
+        # <registry[node]>.send(..) or <local holding the looked-up connection>.send(..)
+        return [c for c in ast.walk(n.ast) if isinstance(c, ast.Call) and isinstance(c.func, ast.Attribute) and c.func.attr == 'send'
+                and (isinstance(c.func.value, ast.Subscript) or (isinstance(c.func.value, ast.Name) and c.func.value.id != f.self_name))]
+    sends = [n for n in cfg.nodes if n.kind == 'stmt' and n.ast is not None and fwd_calls(n)]
     ctx.require(sends, 'TCPTransport.send does not forward to a connection')
+    rsym = 'A:' + registry
     for n in sends:
         inst = 'message handed only to a registered, connected connection'
-        ok = all(any(l[0] == 'opaque' and l[2] and ' in self.' in l[1] for l in fs) and
-                 any(l[0] == 'eq' and any(t.key == 'CONNECTION_STATE.CONNECTED' for t in (l[1], l[2])) for l in fs) for fs in res.facts_at(n.id)) and bool(res.facts_at(n.id))
+        recv = ex.tb.term(fwd_calls(n)[0].func.value)
+
+        def registered(fs):
+            if any(l[0] == 'opaque' and l[2] and (' in self.%s' % registry) in l[1] for l in fs):
+                return True
+            # conn = registry.get(node); conn is not None
+            for l in fs:
+                if l[0] == 'none' and not l[2] and l[1] == recv:
+                    if any(l2[0] == 'eq' and recv in (l2[1], l2[2]) and rsym in (l2[2] if l2[1] == recv else l2[1]).deps for l2 in fs):
+                        return True
+            return False
+
+        def connected(fs):
+            return any(l[0] == 'eq' and any(t.key == 'CONNECTION_STATE.CONNECTED' for t in (l[1], l[2]))
+                       and any(t.key == recv.key + '.state' for t in (l[1], l[2])) for l in fs)
+        ok = bool(res.facts_at(n.id)) and all(registered(fs) and connected(fs) for fs in res.facts_at(n.id))
         ctx.tick()
         if ok:
             ctx.ok(inst, f.loc(n.ast), 'node in registry and state == CONNECTED entailed')
